@@ -3,7 +3,7 @@
 A literal is a fact tuple as produced by sym.implied_facts (('cmp', op, a, b), ('discr', x, rel), ('bool', x, v), ('is', ..)).  A conjunction is a frozenset of
 literals, a DNF a list of conjunctions.  Unsatisfiability of a conjunction: complementary literals, incompatible discriminants, or comparison facts that
 order.infeasible refutes (Fourier-Motzkin with the ORDR axioms).  Everything here errs on the side of `not equivalent`."""
-from sym import tag, implied_facts
+from sym import tag, implied_facts, Lin
 
 
 FLIP = {"Eq": "Ne", "Ne": "Eq", "Lt": "Ge", "Ge": "Lt", "Gt": "Le", "Le": "Gt"}
@@ -117,14 +117,24 @@ def variant_join_sites(res, body):
     """join blocks of the frame at which a value was joined from variant constructions and whose discriminant is tested later: {join block: vsum term}"""
     out = {}
     for c in res.conds.values():
+        site = None
         if tag(c) == "discr" and tag(c[1]) == "vsum" and len(c[1]) > 3 and c[1][3][0] == "from":
-            site = c[1][3][1]
-            if len(site) == 1 and str(site[-1]).startswith(body.name + "@"):
-                try:
-                    out[int(str(site[-1]).split("@")[-1])] = c[1]
-                except ValueError:
-                    pass
+            site, val = c[1][3][1], c[1]
+        elif tag(c) == "phi" and len(c) > 4 and c[4] and all(o is not None for o in c[4]) and all(isinstance(a, Lin) and a.is_const() for a in c[3]):
+            site, val = c[1], c          # a flag joined from constants (`let give_back = match k { A => true, B => false }`)
+        if site is not None and len(site) == 1 and str(site[-1]).startswith(body.name + "@"):
+            try:
+                out[int(str(site[-1]).split("@")[-1])] = val
+            except ValueError:
+                pass
     return out
+
+
+def _matching_origins(ev, v, rel):
+    """origins (incoming blocks of the join) whose value satisfies the test `rel`"""
+    if tag(v) == "phi":
+        return set(o for a, o in zip(v[3], v[4]) if _rel_sat(rel, a.c))
+    return set(o for nm, o in v[3][2] if (lambda d: d is not None and _rel_sat(rel, d))(ev._variant_discr(v[1], nm)))
 
 
 def _rel_sat(rel, v):
@@ -195,10 +205,10 @@ def block_dnf(ev, res, body, bb, lit=None, cap=48, _memo=None, _back=None, stop=
                 edge = [g for g in ev.guards_edge(res, p, bb) if g not in gp]
                 plain = []
                 for cond, rel in edge:
-                    v = cond[1] if tag(cond) == "discr" else None
-                    if tag(v) == "vsum" and v in vj.values():
+                    v = cond[1] if tag(cond) == "discr" else (cond if tag(cond) == "phi" else None)
+                    if v is not None and tag(v) in ("vsum", "phi") and v in vj.values():
                         jb = [k for k, s_ in vj.items() if s_ == v][0]
-                        ok_orig = set(o for nm, o in v[3][2] if (lambda d: d is not None and _rel_sat(rel, d))(ev._variant_discr(v[1], nm)))
+                        ok_orig = _matching_origins(ev, v, rel)
                         pd = [c for c in pd if any(("via", jb, o) in c for o in ok_orig)]
                     else:
                         plain.append((cond, rel))
